@@ -1222,6 +1222,9 @@ impl World {
             let class = [4u8, 4, 1, 3][self.rng.random_range(0..4)];
             let mut r = rng_from(self.rng.random());
             payload(&mut r, class, l)
+        } else if self.rng.random_range(0..8) == 0 {
+            // the empty string is a value like any other (it is also what a tombstone stores)
+            String::new()
         } else {
             format!("v{}", self.rng.random_range(0..3))
         };
